@@ -36,6 +36,9 @@ def cases(tier, rng, dist):
         n = rng.randint(260, 400)
         yield {"lr": "bern", "po": "1/2", "pa": rng.choice(["13/25", "12/25"]), "alpha": "1/20", "beta": "1/20",
                "xs": [1 if rng.random() < 0.7 else 0 for _ in range(n)], "ro": False, "dtype": rng.choice(["int8", "uint8", "bool", "int64", "list"])}
+    # samples of several thousand observations examined in order: every prefix length 1, 2, 3, ... up to the first exit
+    for n in ((2503, 3001, 5003, 7001) if tier == "quick" else (2503, 3001, 4001, 5003, 7001, 11003, 2047, 2049)):
+        yield {"lr": "bern", "po": "1/2", "pa": "13/25", "alpha": "1/20", "beta": "1/20", "xs": [1 if rng.random() < 0.66 else 0 for _ in range(n)], "ro": True, "dtype": "int64", "lenlog": True}
     vals = ["1/2", "3/2", "1", "3/4", "5/4", "1/4", "2", "0", "149/100", "51/100"]
     for _ in range(600 if tier == "quick" else 6000):
         n = rng.randint(0, 7)
@@ -56,7 +59,7 @@ def run(c):
     if c["lr"] == "bern":
         po, pa = float(Fraction(c["po"])), float(Fraction(c["pa"]))
         def lr(x):
-            log.append(list(x)); return bernoulli_lh_ratio(x, po, pa)
+            log.append(len(x) if c.get("lenlog") else list(x)); return bernoulli_lh_ratio(x, po, pa)
     else:
         tab = [float("inf") if v == "inf" else float(Fraction(v)) for v in c["table"]]
         def lr(x):
@@ -68,7 +71,7 @@ def run(c):
     if r[0] != "ok":
         return {"ok": False, "err": list(r)}
     (concl, ts) = r[1]
-    log = [[int(v) for v in l] for l in log]
+    log = [[int(v) for v in l] for l in log] if not c.get("lenlog") else list(log)
     # the decision returned is the caller's own object: clearing it must not change what a later, identical call reports
     first = [bool(concl[0]), bool(concl[1])]
     again = None
@@ -103,11 +106,11 @@ def spec(c):
     if c["ro"]:
         ts = Fraction(1)
         for k in range(1, len(xs) + 1):
-            ts = lr(xs[:k]); log.append(xs[:k]); chk(ts)
+            ts = lr(xs[:k]); log.append(k if c.get("lenlog") else xs[:k]); chk(ts)
             if not (A < ts < B):
                 break
     else:
-        ts = lr(xs); log.append(list(xs)); chk(ts)
+        ts = lr(xs); log.append(len(xs) if c.get("lenlog") else list(xs)); chk(ts)
     concl = [ts >= B, (ts <= A) and not (ts >= B)]
     return concl, ts, log, near
 
@@ -134,7 +137,7 @@ def oracle(c, o):
 
 
 def to_coq(c, o):
-    if not o["ok"]:
+    if not o["ok"] or c.get("lenlog"):
         return None
     if spec(c)[3]:
         SKIPPED[0] += 1
